@@ -207,6 +207,78 @@ func isNilPtr(x any) bool {
 	return v.Kind() == reflect.Ptr && v.IsNil()
 }
 
+// refAsStack / refAsCond are the harness's own answer to "is this value a live Stack / Condition (or an
+// alias of one, or a non-nil pointer to either)": plain type switches over the types the harness itself
+// puts into trees. The reference walks use them instead of the library's ConvertStack /
+// ConvertCondition, so that a defect in the library's converters cannot hide inside the oracle.
+func refAsStack(v any) (stackage.Stack, bool) {
+	var s stackage.Stack
+	switch tv := v.(type) {
+	case stackage.Stack:
+		s = tv
+	case *stackage.Stack:
+		if tv == nil {
+			return s, false
+		}
+		s = *tv
+	case StackAlias:
+		s = stackage.Stack(tv)
+	case *StackAlias:
+		if tv == nil {
+			return s, false
+		}
+		s = stackage.Stack(*tv)
+	case StackAliasS:
+		s = stackage.Stack(tv)
+	case *StackAliasS:
+		if tv == nil {
+			return s, false
+		}
+		s = stackage.Stack(*tv)
+	default:
+		return s, false
+	}
+	d := stackage.VerifDump(s)
+	if d == nil || d.Nil {
+		return stackage.Stack{}, false
+	}
+	return s, true
+}
+
+func refAsCond(v any) (stackage.Condition, bool) {
+	var c stackage.Condition
+	switch tv := v.(type) {
+	case stackage.Condition:
+		c = tv
+	case *stackage.Condition:
+		if tv == nil {
+			return c, false
+		}
+		c = *tv
+	case CondAlias:
+		c = stackage.Condition(tv)
+	case *CondAlias:
+		if tv == nil {
+			return c, false
+		}
+		c = stackage.Condition(*tv)
+	case CondAliasS:
+		c = stackage.Condition(tv)
+	case *CondAliasS:
+		if tv == nil {
+			return c, false
+		}
+		c = stackage.Condition(*tv)
+	default:
+		return c, false
+	}
+	d := stackage.VerifDump(c)
+	if d == nil || d.Nil {
+		return stackage.Condition{}, false
+	}
+	return c, true
+}
+
 // fillMode derives a construction history from a description deterministically.
 func fillMode(desc string) int {
 	h := 0
